@@ -23,7 +23,7 @@ ENGINES = ["E1 nir2smt", "E3 BMC + one-step induction"]
 TECHNIQUE = "BMC from reset against a z3 ring model + one-step induction under the invariant end = start + allocated (mod entries); counterexamples replayed on amaranth.sim"
 BOUNDS = {
     "quick": "(entries, max_alloc, max_free) in {(1,1,1),(2,1,2),(3,1,1),(3,2,2),(4,2,2),(5,2,3),(6,3,2)} with and without argument validation, "
-             "BMC entries+4 cycles from reset (at most 8), all subsets of simultaneous alloc/free/clear, all counts; one-step induction for the same "
+             "BMC entries+4 cycles from reset (at most 9), all subsets of simultaneous alloc/free/clear, all counts; one-step induction for the same "
              "shapes and (7,3,3), (8,4,4), (9,2,4)",
     "thorough": "entries 1..9, max_alloc / max_free 1..4 (<= entries), with and without validation: one-step induction for all, BMC 8..12 cycles "
                 "for entries <= 7 and max_alloc, max_free <= 3",
@@ -53,7 +53,7 @@ def configs(tier, seed):
         shapes = [(1, 1, 1), (2, 1, 2), (3, 1, 1), (3, 2, 2), (4, 2, 2), (5, 2, 3), (6, 3, 2)]
         for n, ma, mf in shapes:
             for val in (True, False):
-                out.append(dict(entries=n, ma=ma, mf=mf, validate=val, mode="bmc", K=min(n + 4, 8)))
+                out.append(dict(entries=n, ma=ma, mf=mf, validate=val, mode="bmc", K=min(n + 4, 9)))
         for n, ma, mf in shapes + [(7, 3, 3), (8, 4, 4), (9, 2, 4)]:
             for val in (True, False):
                 out.append(dict(entries=n, ma=ma, mf=mf, validate=val, mode="ind"))
